@@ -73,6 +73,8 @@ from nucs.solvers.solver import Solver, decrease_max, get_solution, increase_min
 
 logger = logging.getLogger(__name__)
 
+STACK_MAX_HEIGHT_LIMIT = 256  # the index of the top of the stacks is an uint8
+
 
 class BacktrackSolver(Solver):
     """
@@ -106,6 +108,8 @@ class BacktrackSolver(Solver):
         :param log_level: the log level as a string
         """
         super().__init__(problem, log_level)
+        if not 1 <= stack_max_height <= STACK_MAX_HEIGHT_LIMIT:
+            raise ValueError(f"stack_max_height should be in [1, {STACK_MAX_HEIGHT_LIMIT}]")  # stacks_top is an uint8
         decision_domains = list(range(problem.shr_domain_nb)) if decision_domains is None else decision_domains
         logger.info(f"BacktrackSolver uses decision domains {decision_domains}")
         self.decision_domains = np.array(decision_domains, dtype=np.uint16)
@@ -545,6 +549,8 @@ def solve_one(
             statistics[STATS_IDX_SOLVER_SOLUTION_NB] += 1
             return get_solution(shr_domains_stack, stacks_top, dom_indices_arr, dom_offsets_arr)
         elif status == PROBLEM_UNBOUND:
+            if int(stacks_top[0]) + 2 >= len(shr_domains_stack):  # a domain heuristic pushes at most 2 choice points
+                raise RuntimeError("The choice points stack is full, stack_max_height should be increased")
             dom_idx = var_heuristic_fct(var_heuristic_params, decision_domains, shr_domains_stack, stacks_top)
             events = dom_heuristic_fct(
                 dom_heuristic_params,
